@@ -310,6 +310,30 @@ Definition round_trip (p : policy) (cn : cancel) (bd : body) (st : bstate) (sc :
   rt_loop (rt_fuel p) p cn bd st sc t 0 [].
 
 (* ------------------------------------------------------------------ *)
+(* Trace projections used by the statements and by the runner           *)
+
+Fixpoint attempts (tr : list event) : list (Z * str) :=
+  match tr with
+  | [] => []
+  | EAttempt t g :: r => (t, g) :: attempts r
+  | EPause _ _ :: r => attempts r
+  end.
+
+Fixpoint pauses (tr : list event) : list (Z * Z) :=
+  match tr with
+  | [] => []
+  | EPause t d :: r => (t, d) :: pauses r
+  | EAttempt _ _ :: r => pauses r
+  end.
+
+Fixpoint is_prefix (x y : str) : bool :=
+  match x, y with
+  | [], _ => true
+  | c :: x', d :: y' => (c =? d)%N && is_prefix x' y'
+  | _ :: _, [] => false
+  end.
+
+(* ------------------------------------------------------------------ *)
 (* auth.Client.Do over the retrying transport.  Only what matters for re-sending:
    first send; on 401 with a Basic or Bearer challenge rewind the body and send
    again (once for an empty token cache, possibly twice for a warm one). *)
@@ -335,8 +359,8 @@ Definition rewind_error (rw : rewind_result) : result :=
    names (but none for the request's own scope key): Do first re-sends with the
    cached token and, if that is refused too, fetches a fresh token and sends a third
    time.  Every re-send is preceded by rewindRequestBody. *)
-Definition auth_do (warm : bool) (p : policy) (cn : cancel) (bd : body) (sc : list beh) : auth_out :=
-  let o1 := round_trip p cn bd (init_state bd) sc 0 in
+Definition auth_do_at (warm : bool) (p : policy) (cn : cancel) (bd : body) (sc : list beh) (t0 : Z) : auth_out :=
+  let o1 := round_trip p cn bd (init_state bd) sc t0 in
   if challenged (o_res o1) then
     match rewind bd (o_st o1) with
     | RwOk st2 =>
@@ -353,36 +377,44 @@ Definition auth_do (warm : bool) (p : policy) (cn : cancel) (bd : body) (sc : li
     end
   else mkAuth (o_res o1) (o_trace o1) [] [] (o_time o1).
 
+Definition auth_do (warm : bool) (p : policy) (cn : cancel) (bd : body) (sc : list beh) : auth_out :=
+  auth_do_at warm p cn bd sc 0.
+
+(* a request that already carries Authorization, or a client that is not an auth client:
+   one send through the transport *)
+Definition plain_do_at (p : policy) (cn : cancel) (bd : body) (sc : list beh) (t0 : Z) : auth_out :=
+  let o := round_trip p cn bd (init_state bd) sc t0 in
+  mkAuth (o_res o) (o_trace o) [] [] (o_time o).
+
+Definition auth_attempts (a : auth_out) : list (Z * str) :=
+  attempts (a_first a) ++ attempts (a_second a) ++ attempts (a_third a).
+
+(* blobStore.Push: POST without a body starts the upload; on 202 the blob goes out in a PUT
+   that re-uses the Authorization header of the POST's last request, if it had one (then the
+   auth client passes it through unchanged); otherwise the PUT is an ordinary request of the
+   client.  Empty token cache. *)
+Record push_out := mkPush { u_res : result; u_post : auth_out; u_put : option auth_out; u_time : Z }.
+
+Definition no_body : body := mkBody KNone [].
+
+Definition accepted (r : result) : bool := match r with RResp c _ => c =? 202 | _ => false end.
+
+Definition blob_push (authc : bool) (p : policy) (cn : cancel) (bd : body) (sc : list beh) : push_out :=
+  let post := if authc then auth_do_at false p cn no_body sc 0 else plain_do_at p cn no_body sc 0 in
+  if accepted (a_res post) then
+    let sc' := skipn (length (auth_attempts post)) sc in
+    let authed := match attempts (a_second post) with [] => false | _ => true end in
+    let put := if authc && negb authed then auth_do_at false p cn bd sc' (a_time post)
+               else plain_do_at p cn bd sc' (a_time post) in
+    mkPush (a_res put) post (Some put) (a_time put)
+  else mkPush (a_res post) post None (a_time post).
+
 (* manifestStore.push: an *auth.Client and a body without GetBody => the content is
    buffered in memory and GetBody installed *)
 Definition manifest_push_body (is_auth_client : bool) (bd : body) : body :=
   match bk bd with
   | KOneShot => if is_auth_client then mkBody KReplay (bdata bd) else bd
   | _ => bd
-  end.
-
-(* ------------------------------------------------------------------ *)
-(* Trace projections used by the statements and by the runner           *)
-
-Fixpoint attempts (tr : list event) : list (Z * str) :=
-  match tr with
-  | [] => []
-  | EAttempt t g :: r => (t, g) :: attempts r
-  | EPause _ _ :: r => attempts r
-  end.
-
-Fixpoint pauses (tr : list event) : list (Z * Z) :=
-  match tr with
-  | [] => []
-  | EPause t d :: r => (t, d) :: pauses r
-  | EAttempt _ _ :: r => pauses r
-  end.
-
-Fixpoint is_prefix (x y : str) : bool :=
-  match x, y with
-  | [], _ => true
-  | c :: x', d :: y' => (c =? d)%N && is_prefix x' y'
-  | _ :: _, [] => false
   end.
 
 (* ------------------------------------------------------------------ *)
